@@ -35,8 +35,13 @@ Definition passthrough_ok (i o : V) : bool :=
   | _ => true
   end.
 
+(** C18: a leading message that is needed to build the backend request but cannot be decoded
+    (or was not finished) means no dispatch at all *)
+Definition leading_reject_ok (i o : V) : bool :=
+  negb (vb (vnth 4 i)) || (vz (vnth 0 o) + vz (vnth 1 o) =? 0).
+
 Definition mon_dispatch : monitor_t := fun suite i o =>
-  if name_is suite "serve.dispatch" then Some (dispatch_counts_ok o && passthrough_ok i o) else None.
+  if name_is suite "serve.dispatch" then Some (dispatch_counts_ok o && passthrough_ok i o && leading_reject_ok i o) else None.
 
 Definition diag_dispatch (suite : bytes) (i o : V) : option V :=
   if name_is suite "serve.dispatch" then Some (VL [VBool (dispatch_counts_ok o); VBool (passthrough_ok i o)]) else None.
